@@ -343,7 +343,8 @@ class ClimateData(Data, Cached):
         """
         # If data are anomalies skip automatic calculation of anomalies
         if self.anomalies:
-            return self._full_observable
+            #  the data are anomalies already: return the current (windowed) view
+            return self.observable()
 
         observable = self.observable()
         time_cycle = self.time_cycle
